@@ -15,5 +15,6 @@ CHECKS = {
     "C17": {"level": E, "units": [go("TestC17Single", 1000000, 16, netns=False), go("TestC17Pairs", 200000, 3000000, netns=False)]},
     "C06": {"level": E, "units": [go("TestC06Exhaustive", 16, 16, netns=False), go("TestC06Seq", 40000, 2000000, netns=False),
                                   go("TestC06Conc", 3000, 60000, race=True, netns=False, confirm=False)], "replay_race": False},
+    "C18": {"level": E, "units": [go("TestC18Samples", 1, 1, netns=False, shards={"quick": 1, "thorough": 1}), go("TestC18", 60000, 4000000, netns=False)]},
     "C02": {"level": E, "units": [go("TestC02", 1600, 60000)]},
 }
